@@ -207,7 +207,8 @@ impl DwarfRegistry {
     fn find_range(&self, addr: RelocatedAddress) -> Option<&(PathBuf, RegionRange)> {
         self.ranges
             .binary_search_by(|(_, range)| {
-                if addr >= range.from && addr <= range.to {
+                // `to` is the first address past the last mapping of the object
+                if addr >= range.from && addr < range.to {
                     Ordering::Equal
                 } else if range.from > addr {
                     Ordering::Greater
